@@ -233,7 +233,7 @@ pub fn gen(rng: &mut Rng, idx: usize) -> Value {
     }
     collect(&apps, 0, vec![], &mut fulls);
     let mut reqs = vec![];
-    let methods = ["GET", "POST", "HEAD", "PUT", "DELETE"];
+    let methods: &[&str] = if c04 { &["GET", "POST", "HEAD", "PUT", "DELETE", "OPTIONS"] } else { &["GET", "POST", "HEAD", "PUT", "DELETE"] };
     for f in &fulls {
         for w in [vec!["a"], vec!["b", "b"], vec!["a", "b"]] {
             let inst: Vec<Vec<&str>> = f.iter().map(|sg| if s(&sg["k"]) == "S" { arr(&sg["s"]).iter().map(s).collect() } else { w.clone() }).collect();
@@ -243,7 +243,7 @@ pub fn gen(rng: &mut Rng, idx: usize) -> Value {
                 let k = rng.below(inst.len()); let mut x = inst.clone(); x[k].push("a"); variants.push(x);
                 let mut x = inst.clone(); x[k].pop(); variants.push(x); }
             for vv in variants { if vv.is_empty() && false { continue }
-                let m = *rng.pick(&methods); let tr = if vv.is_empty() { 1 } else { rng.below(3).min(if rng.chance(1, 4) { 2 } else { 1 }) };
+                let m = *rng.pick(methods); let tr = if vv.is_empty() { 1 } else { rng.below(3).min(if rng.chance(1, 4) { 2 } else { 1 }) };
                 reqs.push(json!({"method": m, "path": vv, "trailing": tr})); }
         }
     }
